@@ -27,14 +27,15 @@ def fieldsOf (opt : Opt) (line2 : Bytes) : List Range :=
 set_option linter.unusedSimpArgs false in
 /-- `cut_str` in field mode with a literal delimiter, passes made explicit -/
 theorem cutStrCore_fields (line : Bytes) (opt : Opt) (eol : Bytes) (hre : opt.regexBag = none)
-    (hty : opt.boundsType = .fields) :
+    (hty : opt.boundsType = .fields ∨ opt.boundsType = .lines) :
     (cutStrCore line opt eol).1 =
       if (trimmed opt line).isEmpty then (if !opt.onlyDelimited then Run.ok eol else Run.empty)
       else emitRecord (compressed opt (trimmed opt line))
         (fieldsOf opt (compressed opt (trimmed opt line))) opt false eol := by
   unfold cutStrCore trimmed
-  simp only [hre, hty, Option.isSome_none, Bool.false_and, Bool.false_eq_true, if_false]
-  cases opt.trim <;> simp only [] <;> split <;> rename_i he
+  rcases hty with hty | hty <;>
+    simp only [hre, hty, Option.isSome_none, Bool.false_and, Bool.false_eq_true, if_false] <;>
+    cases opt.trim <;> simp only [] <;> split <;> rename_i he
   all_goals first
     | (simp only [he, if_true]; done)
     | (cases hc : opt.compressDelimiter <;> simp [he, compressed, fieldsOf, hc])
@@ -49,7 +50,7 @@ def sepOf (opt : Opt) : Nat → Bytes := fun k =>
 def specBofs (opt : Opt) (n : Nat) : List BoF :=
   if opt.complement then mapBounds (complementBound · n) opt.bounds.list else opt.bounds.list
 
-theorem specRecord_fields (line : Bytes) (opt : Opt) (hty : opt.boundsType = .fields)
+theorem specRecord_fields (line : Bytes) (opt : Opt) (hty : opt.boundsType = .fields ∨ opt.boundsType = .lines)
     (hjson : opt.json = false) :
     specRecord (cfgOf opt) line =
       if (trimmed opt line).isEmpty then (if opt.onlyDelimited then Run.empty else Run.ok [opt.eol.byte])
@@ -69,8 +70,8 @@ theorem specRecord_fields (line : Bytes) (opt : Opt) (hty : opt.boundsType = .fi
               (tokenize opt.delimiter opt.greedyDelimiter opt.compressDelimiter (trimmed opt line)).numFields)).seq
               (Run.ok [opt.eol.byte]) := by
   unfold specRecord trimmed specBofs
-  simp only [cfgOf, hty, hjson]
-  cases opt.trim <;> cases opt.complement <;> simp <;> rfl
+  rcases hty with hty | hty <;> simp only [cfgOf, hty, hjson] <;>
+    cases opt.trim <;> cases opt.complement <;> simp <;> rfl
 
 /-! ## the ranges against the tokens -/
 
@@ -157,13 +158,16 @@ theorem joiner_algebra (x J : Bytes) (join isLast : Bool) (c : Nat) (R : Run)
 /-- the text the engine prints for a resolvable bound is the specification's piece -/
 theorem bound_text (opt : Opt) (line : Bytes) (fields : List Range) (tok : Tok)
     (hR : Refines opt.delimiter line fields tok) (hd : opt.delimiter ≠ [])
-    (hre : opt.regexBag = none) (hty : opt.boundsType = .fields)
+    (hre : opt.regexBag = none) (hty : opt.boundsType = .fields ∨ opt.boundsType = .lines)
     (a b : Nat) (hab : a ≤ b) (hb : b < fields.length) :
     maybeReplaceDelimiter (slice line (fields[a]'(by omega)).start fields[b].stop) opt false =
       pieceText (sepOf opt) tok (a + 1) (b + 1) := by
   unfold maybeReplaceDelimiter sepOf
   rw [hR.piece a b hab hb]
-  simp only [hty, hre]
+  have hnc : ¬ opt.boundsType = .characters := by
+    rcases hty with hty | hty <;> rw [hty] <;> intro h <;> cases h
+  rw [if_neg hnc]
+  simp only [hre]
   cases opt.replaceDelimiter with
   | none => simp
   | some r => simpa using pieceText_replace opt.delimiter r hd tok hR.ok (a + 1) (b + 1)
@@ -181,7 +185,8 @@ def specText (opt : Opt) (tok : Tok) (b : UserBounds) : Option Bytes :=
 /-- one bound of the output loop, followed by the rest `R` of the run -/
 theorem outputBof_bound (opt : Opt) (line : Bytes) (fields : List Range) (tok : Tok)
     (hR : Refines opt.delimiter line fields tok) (hd : opt.delimiter ≠ [])
-    (hre : opt.regexBag = none) (hty : opt.boundsType = .fields) (hjson : opt.json = false)
+    (hre : opt.regexBag = none) (hty : opt.boundsType = .fields ∨ opt.boundsType = .lines)
+    (hjson : opt.json = false)
     (b : UserBounds) (hz : b.Nonzero) (c : Nat) (hL : b.isLast = true ↔ c = 0) (R : Run) :
     (outputBof line fields fields.length opt false (.bound b)).seq R =
       match specText opt tok b with
@@ -227,7 +232,8 @@ theorem outputBof_bound (opt : Opt) (line : Bytes) (fields : List Range) (tok : 
 /-- **the output loop is the specification's `emit`** -/
 theorem outputLoop_eq_emit (opt : Opt) (line : Bytes) (fields : List Range) (tok : Tok)
     (hR : Refines opt.delimiter line fields tok) (hd : opt.delimiter ≠ [])
-    (hre : opt.regexBag = none) (hty : opt.boundsType = .fields) (hjson : opt.json = false) :
+    (hre : opt.regexBag = none) (hty : opt.boundsType = .fields ∨ opt.boundsType = .lines)
+    (hjson : opt.json = false) :
     ∀ (bofs : List BoF), (∀ b, BoF.bound b ∈ bofs → b.Nonzero) → LastMarked bofs →
       outputLoop line fields fields.length opt false bofs =
         emit (cfgOf opt) tok (sepOf opt) (opt.replaceDelimiter.getD opt.delimiter) bofs
@@ -255,7 +261,7 @@ theorem outputLoop_eq_emit (opt : Opt) (line : Bytes) (fields : List Range) (tok
 
 /-- everything after the ranges are known, without `--json` -/
 theorem emitRecord_fields (line : Bytes) (fields : List Range) (opt : Opt) (eol : Bytes)
-    (hjson : opt.json = false) (hty : opt.boundsType = .fields) :
+    (hjson : opt.json = false) (hty : opt.boundsType = .fields ∨ opt.boundsType = .lines) :
     emitRecord line fields opt false eol =
       if opt.onlyDelimited && fields.length == 1 then Run.empty
       else
@@ -266,11 +272,11 @@ theorem emitRecord_fields (line : Bytes) (fields : List Range) (opt : Opt) (eol 
         | .ok bounds =>
           (outputLoop line fields fields.length opt false bounds.list).seq (Run.ok eol) := by
   unfold emitRecord
-  simp only [hjson, hty]
-  split
-  · rfl
-  · simp only [Bool.false_or, Bool.false_eq_true, if_false, Run.empty_seq, Run.seq_empty]
-    split <;> simp [*]
+  rcases hty with hty | hty <;> simp only [hjson, hty] <;> split
+  all_goals first
+    | rfl
+    | (simp only [Bool.false_or, Bool.false_eq_true, if_false, Run.empty_seq, Run.seq_empty]
+       split <;> simp [*])
 
 /-! ## `markLast` establishes `LastMarked` -/
 
@@ -534,7 +540,8 @@ theorem boundsOnly_isEmpty_iff : ∀ (l : List BoF), (boundsOnly l).isEmpty = (c
 /-- everything after the ranges are known is the tail of the specification -/
 theorem emitRecord_eq_spec (opt : Opt) (line : Bytes) (fields : List Range) (tok : Tok)
     (hR : Refines opt.delimiter line fields tok) (hd : opt.delimiter ≠ [])
-    (hre : opt.regexBag = none) (hty : opt.boundsType = .fields) (hjson : opt.json = false)
+    (hre : opt.regexBag = none) (hty : opt.boundsType = .fields ∨ opt.boundsType = .lines)
+    (hjson : opt.json = false)
     (hz : AllNonzero opt.bounds.list) (hL : LastMarked opt.bounds.list) :
     emitRecord line fields opt false [opt.eol.byte] =
       if opt.onlyDelimited && tok.numFields == 1 then Run.empty
@@ -578,8 +585,9 @@ theorem emitRecord_eq_spec (opt : Opt) (line : Bytes) (fields : List Range) (tok
     any of `-g -p -t -s -j -r -m`, fallbacks, format fillers; no `--json`, no regex — writes for
     every record exactly what the per-record specification says, and ends as it says (never a
     panic). -/
-theorem cutStr_eq_spec (opt : Opt) (line : Bytes) (hd : opt.delimiter ≠ [])
-    (hre : opt.regexBag = none) (hty : opt.boundsType = .fields) (hjson : opt.json = false)
+theorem cutStr_eq_spec_gen (opt : Opt) (line : Bytes) (hd : opt.delimiter ≠ [])
+    (hre : opt.regexBag = none) (hty : opt.boundsType = .fields ∨ opt.boundsType = .lines)
+    (hjson : opt.json = false)
     (hz : AllNonzero opt.bounds.list) (hL : LastMarked opt.bounds.list) :
     (cutStrCore line opt [opt.eol.byte]).1 = specRecord (cfgOf opt) line := by
   rw [cutStrCore_fields line opt _ hre hty, specRecord_fields line opt hty hjson]
@@ -592,25 +600,27 @@ theorem cutStr_eq_spec (opt : Opt) (line : Bytes) (hd : opt.delimiter ≠ [])
     have hR := refines_engine opt (trimmed opt line) hd hne
     exact emitRecord_eq_spec opt _ _ _ hR hd hre hty hjson hz hL
 
-theorem cutRecords_eq_spec (opt : Opt) (hd : opt.delimiter ≠ [])
-    (hre : opt.regexBag = none) (hty : opt.boundsType = .fields) (hjson : opt.json = false)
+theorem cutRecords_eq_spec_gen (opt : Opt) (hd : opt.delimiter ≠ [])
+    (hre : opt.regexBag = none) (hty : opt.boundsType = .fields ∨ opt.boundsType = .lines)
+    (hjson : opt.json = false)
     (hz : AllNonzero opt.bounds.list) (hL : LastMarked opt.bounds.list) :
     ∀ (recs : List Bytes) (f₀ : List Range) (b₀ : Bytes),
       cutRecords opt recs f₀ b₀ = specRunRecords (cfgOf opt) recs
   | [], _, _ => rfl
   | r :: t, f₀, b₀ => by
     have h1 : (cutStr r opt f₀ b₀ [opt.eol.byte]).1 = specRecord (cfgOf opt) r :=
-      cutStr_eq_spec opt r hd hre hty hjson hz hL
+      cutStr_eq_spec_gen opt r hd hre hty hjson hz hL
     simp only [cutRecords, specRunRecords]
-    rw [h1, cutRecords_eq_spec opt hd hre hty hjson hz hL t]
+    rw [h1, cutRecords_eq_spec_gen opt hd hre hty hjson hz hL t]
 
 /-- **C01, the run.**  On a fault-free reader the general engine in field mode is the
     specification: records in order, each by `specRecord`, stop at the first failure. -/
-theorem readAndCutStr_eq_specRun (opt : Opt) (input : Bytes) (hd : opt.delimiter ≠ [])
-    (hre : opt.regexBag = none) (hty : opt.boundsType = .fields) (hjson : opt.json = false)
+theorem readAndCutStr_eq_specRun_gen (opt : Opt) (input : Bytes) (hd : opt.delimiter ≠ [])
+    (hre : opt.regexBag = none) (hty : opt.boundsType = .fields ∨ opt.boundsType = .lines)
+    (hjson : opt.json = false)
     (hz : AllNonzero opt.bounds.list) (hL : LastMarked opt.bounds.list) :
     readAndCutStr opt input = specRun (cfgOf opt) input :=
-  cutRecords_eq_spec opt hd hre hty hjson hz hL _ [] []
+  cutRecords_eq_spec_gen opt hd hre hty hjson hz hL _ [] []
 
 
 /-! ## consequence: the engine never panics and never hangs -/
@@ -639,7 +649,8 @@ theorem emit_clean (cfg : Cfg) (tok : Tok) (sep : Nat → Bytes) (j : Bytes) :
       · exact Or.inr rfl
       · exact ih.pre
 
-theorem specRecord_clean (opt : Opt) (line : Bytes) (hty : opt.boundsType = .fields)
+theorem specRecord_clean (opt : Opt) (line : Bytes)
+    (hty : opt.boundsType = .fields ∨ opt.boundsType = .lines)
     (hjson : opt.json = false) : (specRecord (cfgOf opt) line).Clean := by
   rw [specRecord_fields line opt hty hjson]
   split
@@ -652,18 +663,19 @@ theorem specRecord_clean (opt : Opt) (line : Bytes) (hty : opt.boundsType = .fie
       · exact Or.inr rfl
       · exact (emit_clean _ _ _ _ _).seq (Or.inl rfl)
 
-theorem specRunRecords_clean (opt : Opt) (hty : opt.boundsType = .fields)
+theorem specRunRecords_clean (opt : Opt) (hty : opt.boundsType = .fields ∨ opt.boundsType = .lines)
     (hjson : opt.json = false) : ∀ (recs : List Bytes), (specRunRecords (cfgOf opt) recs).Clean
   | [] => Or.inl rfl
   | r :: t => (specRecord_clean opt r hty hjson).seq (specRunRecords_clean opt hty hjson t)
 
 /-- **C01 ⇒ C12 for this engine.**  Whatever the input, the general field engine ends with exit
     status 0 or 1: no slice out of range, no `unwrap` on `None`. -/
-theorem readAndCutStr_clean (opt : Opt) (input : Bytes) (hd : opt.delimiter ≠ [])
-    (hre : opt.regexBag = none) (hty : opt.boundsType = .fields) (hjson : opt.json = false)
+theorem readAndCutStr_clean_gen (opt : Opt) (input : Bytes) (hd : opt.delimiter ≠ [])
+    (hre : opt.regexBag = none) (hty : opt.boundsType = .fields ∨ opt.boundsType = .lines)
+    (hjson : opt.json = false)
     (hz : AllNonzero opt.bounds.list) (hL : LastMarked opt.bounds.list) :
     (readAndCutStr opt input).status = .ok ∨ (readAndCutStr opt input).status = .fail := by
-  rw [readAndCutStr_eq_specRun opt input hd hre hty hjson hz hL]
+  rw [readAndCutStr_eq_specRun_gen opt input hd hre hty hjson hz hL]
   exact specRunRecords_clean opt hty hjson _
 
 /-! ## what the bounds parser delivers satisfies the hypotheses -/
@@ -772,7 +784,7 @@ theorem parseBoundsList_all (P : UserBounds → Prop) (hP : ∀ s b, parseUserBo
       obtain ⟨c, hc, rfl⟩ := hb
       exact parseAll_all P hP _ _ hbs c hc
 
-/-- **every accepted `--fields` argument satisfies the hypotheses of `cutStr_eq_spec`** -/
+/-- **every accepted `--fields` argument satisfies the hypotheses of `cutStr_eq_spec_gen`** -/
 theorem boundsListOfString_good (s : List Char) (ubl : UserBoundsList)
     (h : boundsListOfString s = .ok ubl) : AllNonzero ubl.list ∧ LastMarked ubl.list := by
   unfold boundsListOfString at h
@@ -797,11 +809,45 @@ theorem boundsListOfString_good (s : List Char) (ubl : UserBoundsList)
           exact allNonzero_of_eraseLast_eq (markLast_eraseLast l l' hm) hnz
 
 /-- **C01, for every accepted bounds argument.** -/
+theorem readAndCutStr_eq_specRun_of_parsed_gen (opt : Opt) (input : Bytes) (s : List Char)
+    (hparse : boundsListOfString s = .ok opt.bounds) (hd : opt.delimiter ≠ [])
+    (hre : opt.regexBag = none) (hty : opt.boundsType = .fields ∨ opt.boundsType = .lines)
+    (hjson : opt.json = false) :
+    readAndCutStr opt input = specRun (cfgOf opt) input :=
+  have h := boundsListOfString_good s opt.bounds hparse
+  readAndCutStr_eq_specRun_gen opt input hd hre hty hjson h.1 h.2
+
+/-! ## the field-mode statements (`boundsType = .fields`), as corollaries -/
+
+theorem cutStr_eq_spec (opt : Opt) (line : Bytes) (hd : opt.delimiter ≠ [])
+    (hre : opt.regexBag = none) (hty : opt.boundsType = .fields) (hjson : opt.json = false)
+    (hz : AllNonzero opt.bounds.list) (hL : LastMarked opt.bounds.list) :
+    (cutStrCore line opt [opt.eol.byte]).1 = specRecord (cfgOf opt) line :=
+  cutStr_eq_spec_gen opt line hd hre (Or.inl hty) hjson hz hL
+
+theorem cutRecords_eq_spec (opt : Opt) (hd : opt.delimiter ≠ [])
+    (hre : opt.regexBag = none) (hty : opt.boundsType = .fields) (hjson : opt.json = false)
+    (hz : AllNonzero opt.bounds.list) (hL : LastMarked opt.bounds.list)
+    (recs : List Bytes) (f₀ : List Range) (b₀ : Bytes) :
+    cutRecords opt recs f₀ b₀ = specRunRecords (cfgOf opt) recs :=
+  cutRecords_eq_spec_gen opt hd hre (Or.inl hty) hjson hz hL recs f₀ b₀
+
+theorem readAndCutStr_eq_specRun (opt : Opt) (input : Bytes) (hd : opt.delimiter ≠ [])
+    (hre : opt.regexBag = none) (hty : opt.boundsType = .fields) (hjson : opt.json = false)
+    (hz : AllNonzero opt.bounds.list) (hL : LastMarked opt.bounds.list) :
+    readAndCutStr opt input = specRun (cfgOf opt) input :=
+  readAndCutStr_eq_specRun_gen opt input hd hre (Or.inl hty) hjson hz hL
+
+theorem readAndCutStr_clean (opt : Opt) (input : Bytes) (hd : opt.delimiter ≠ [])
+    (hre : opt.regexBag = none) (hty : opt.boundsType = .fields) (hjson : opt.json = false)
+    (hz : AllNonzero opt.bounds.list) (hL : LastMarked opt.bounds.list) :
+    (readAndCutStr opt input).status = .ok ∨ (readAndCutStr opt input).status = .fail :=
+  readAndCutStr_clean_gen opt input hd hre (Or.inl hty) hjson hz hL
+
 theorem readAndCutStr_eq_specRun_of_parsed (opt : Opt) (input : Bytes) (s : List Char)
     (hparse : boundsListOfString s = .ok opt.bounds) (hd : opt.delimiter ≠ [])
     (hre : opt.regexBag = none) (hty : opt.boundsType = .fields) (hjson : opt.json = false) :
     readAndCutStr opt input = specRun (cfgOf opt) input :=
-  have h := boundsListOfString_good s opt.bounds hparse
-  readAndCutStr_eq_specRun opt input hd hre hty hjson h.1 h.2
+  readAndCutStr_eq_specRun_of_parsed_gen opt input s hparse hd hre (Or.inl hty) hjson
 
 end Tuc
